@@ -164,15 +164,18 @@ def disorient (G : MG α) : MG α := fromEdges G.nodes [] (G.di ++ G.bi)
 
 def indegree (G : MG α) (v : α) : Nat := (G.di.filter (fun e => e.2 = v)).length
 
+/-- one `indegree_map[child] -= 1` with the `== 0` test that follows it: decrement the entry of `child`; when it
+reaches zero delete the entry and append `child` to the next generation.  `deg` is an association list. -/
+def topoStep (st : List (α × Nat) × List α) (child : α) : List (α × Nat) × List α :=
+  let deg' := st.1.map (fun p => if p.1 = child then (p.1, p.2 - 1) else p)
+  match deg'.find? (fun p => p.1 = child) with
+  | some (_, 0) => (deg'.filter (fun p => p.1 ≠ child), st.2 ++ [child])
+  | _ => (deg', st.2)
+
 /-- one generation: visit the nodes of `gen` in order, decrement the in-degree of each child, collect
-children that reach zero.  `deg` is an association list. -/
+children that reach zero. -/
 def topoGen (G : MG α) (deg : List (α × Nat)) (gen : List α) : List (α × Nat) × List α :=
-  gen.foldl (fun (st : List (α × Nat) × List α) node =>
-    (G.children node).foldl (fun (st : List (α × Nat) × List α) child =>
-      let deg' := st.1.map (fun p => if p.1 = child then (p.1, p.2 - 1) else p)
-      match deg'.find? (fun p => p.1 = child) with
-      | some (_, 0) => (deg'.filter (fun p => p.1 ≠ child), st.2 ++ [child])
-      | _ => (deg', st.2)) st) (deg, [])
+  gen.foldl (fun (st : List (α × Nat) × List α) node => (G.children node).foldl topoStep st) (deg, [])
 
 def topoLoop (G : MG α) : Nat → List (α × Nat) → List α → List α → Except Err (List α)
   | 0, deg, gen, acc => if deg.isEmpty && gen.isEmpty then .ok acc else .error (.internal "NetworkXUnfeasible")
@@ -221,12 +224,14 @@ def simplePathsFrom (G : MG α) (t : α) : Nat → List α → α → List (List
     else here ++ ((G.children cur).filter (fun c => c ∉ path ∧ c ≠ cur)).flatMap
       (fun c => simplePathsFrom G t fuel (cur :: path) c)
 
-/-- `_get_nodes_in_directed_paths_cyclic` (via `nx.all_simple_paths`) -/
+/-- `_get_nodes_in_directed_paths_cyclic` (via `nx.all_simple_paths`); after `fix:` 2ae6e11 the trivial path
+`[s]` that networkx yields for `s = t` is dropped (`if len(causal_path) > 1`).  The lookup of both endpoints
+(`NodeNotFound`) happens for every pair of the product, also for `s = t`. -/
 def nodesInDirectedPathsCyclic (G : MG α) (S T : List α) : Except Err (List α) :=
   if S.isEmpty || T.isEmpty then .ok []
   else if S.all (· ∈ G.nodes) && T.all (· ∈ G.nodes) then
     .ok (dedup' (S.flatMap (fun s => T.flatMap (fun t =>
-      (simplePathsFrom G t (G.nodes.length + 1) [] s).flatten))))
+      ((simplePathsFrom G t (G.nodes.length + 1) [] s).filter (fun p => p.length > 1)).flatten))))
   else .error (.internal "NodeNotFound")
 
 /-- `get_nodes_in_directed_paths` -/
